@@ -27,7 +27,7 @@ RULE = (
     "distinct_nontrivial = distinct (workload, ploidy, chains, burn-in, empirical distribution) tuples in which the retained log held at least two distinct genotypes"
 )
 FAULT_KEYS = ["row_permute", "adversarial_choice", "shuffle", "exchange_accepted"]
-PROBE_KEYS = ["long_locus_traces", "summaries_checked", "burn_values", "multi_genotype_logs", "mode_ties", "support_ties", "incongruence_checked", "incongruence_1", "incongruence_2",
+PROBE_KEYS = ["long_allele_traces", "long_locus_traces", "summaries_checked", "burn_values", "multi_genotype_logs", "mode_ties", "support_ties", "incongruence_checked", "incongruence_1", "incongruence_2",
               "incongruence_tie_skip", "as_array_checked", "ped_individuals", "chains_disagree"]
 OPTIONAL_PROBES = {"quick": (), "thorough": ()}
 COMPONENTS = {
@@ -46,7 +46,13 @@ def prepare(tier):
 
 
 def gen_config(rng, tier, index=0):
-    w = rng.choice(["assemble", "assemble", "walk", "call", "call", "pedigree"])
+    w = rng.choice(["assemble", "assemble", "walk", "call", "call", "pedigree", "awalk"])
+    if w == "awalk":
+        long = rng.random() < 0.12
+        return {"workload": "awalk", "ploidy": rng.choice([2, 3, 4, 6]), "n_allele": rng.choice([2, 3, 4, 5]),
+                "steps": rng.randint(10500, 14000) if long else rng.randint(2, 40), "chains": rng.choice([1, 2, 3]),
+                "move_rate": rng.choice([0.0005, 0.002]) if long else rng.choice([0.1, 0.5, 0.9]),
+                "threshold": rng.choice([0.0, 0.3, 0.6, 0.9])}
     if w == "walk":
         return {"workload": "walk", "ploidy": rng.choice([2, 3, 4, 6]), "n_pos": rng.choice([1, 3, 8, 22, 23, 24, 30, 40, 64, 80]),
                 "steps": rng.randint(2, 8), "chains": rng.choice([1, 2, 3]), "threshold": rng.choice([0.0, 0.3, 0.6, 0.9])}
@@ -165,6 +171,8 @@ def execute(ctx):
         check_assemble(ctx)
     elif w == "walk":
         run_walk(ctx)
+    elif w == "awalk":
+        run_allele_walk(ctx)
     elif w == "call":
         check_call(ctx)
     else:
@@ -259,6 +267,49 @@ def run_walk(ctx):
     if n_pos > 22:
         ctx.counters.inc("long_locus_traces")
     check_assemble_trace(ctx, cfg, trace, chains)
+
+
+def run_allele_walk(ctx):
+    """Allele-index traces of any length (incl. > 10 000 retained steps with rarely visited genotypes):
+    a tape-driven walk, recorded as the simulator's log and as the stored trace of a GenotypeAllelesMultiTrace."""
+    cfg = ctx.config
+    m = bootstrap()
+    np = m["np"]
+    t = ctx.tape
+    pl, na, steps = cfg["ploidy"], cfg["n_allele"], cfg["steps"]
+    chains, stored = [], []
+    for c in range(cfg["chains"]):
+        g = sorted(t.int(0, na - 1) for _ in range(pl))
+        keys, rows = [], []
+        home = list(g)
+        away = 0
+        for i in range(steps):
+            if steps > 10000:
+                # long traces: a home genotype with brief excursions, so that some genotypes are visited
+                # only once or twice among > 10 000 retained steps
+                if away > 0:
+                    away -= 1
+                    if away == 0:
+                        g = list(home)
+                elif t.chance(cfg["move_rate"]):
+                    g = sorted(t.int(0, na - 1) for _ in range(pl))
+                    away = t.int(1, 3)
+            elif t.chance(cfg["move_rate"]):
+                g = list(g)
+                g[t.int(0, pl - 1)] = t.int(0, na - 1)
+                g = sorted(g)
+            keys.append(tuple(g))
+            rows.append(list(g))
+        chains.append(keys)
+        stored.append(rows)
+    trace = m["cclasses"].GenotypeAllelesMultiTrace(np.array(stored, dtype=np.int64), np.zeros((cfg["chains"], steps)), na)
+    if steps > 10000:
+        ctx.counters.inc("long_allele_traces")
+    ctx.log.add("awalk", pl, na, steps, [len(set(ch)) for ch in chains])
+    burns = None
+    if steps > 60:
+        burns = sorted({0, 1, steps // 10, 1000 if steps > 2000 else steps // 3, steps - 1, t.int(0, steps - 1)})
+    check_alleles_trace(ctx, "call", trace, chains, pl, na, steps, cfg["chains"], cfg["threshold"], burns=burns)
 
 
 def check_assemble_trace(ctx, cfg, trace, chains):
@@ -365,12 +416,12 @@ def check_assemble_trace(ctx, cfg, trace, chains):
 # -- call ---------------------------------------------------------------------
 
 
-def check_alleles_trace(ctx, label, trace, chains, ploidy, n_allele, steps, n_chains, threshold):
+def check_alleles_trace(ctx, label, trace, chains, ploidy, n_allele, steps, n_chains, threshold, burns=None):
     """trace: GenotypeAllelesMultiTrace; chains: per chain list of sorted allele tuples."""
     np = bootstrap()["np"]
     support_of = lambda k: tuple(sorted(set(k)))
     hist = BurnHistory(ctx, trace)
-    for burn in range(steps):
+    for burn in (range(steps) if burns is None else burns):
         ctx.step = burn
         ctx.counters.inc("burn_values")
         tb = hist.at(burn)
@@ -488,6 +539,12 @@ def sut_exception_is_violation(e, ctx):
 
 def shrink_candidates(cfg, violation):
     w = cfg["workload"]
+    if w == "awalk":
+        out = []
+        for k, v in (("chains", 1), ("ploidy", 2), ("n_allele", 2), ("steps", max(2, cfg["steps"] // 2)), ("steps", cfg["steps"] - 1)):
+            if cfg[k] != v and v >= 1:
+                out.append(dict(cfg, **{k: v}))
+        return out
     if w == "walk":
         out = []
         for k, v in (("chains", 1), ("ploidy", 2), ("steps", max(1, cfg["steps"] - 1)), ("n_pos", max(1, cfg["n_pos"] // 2)), ("n_pos", max(1, cfg["n_pos"] - 1))):
